@@ -1288,6 +1288,13 @@ class Interp:
 
     def unpack(self, v, n, node=None):
         """tuple-unpack to exactly n values (ValueError otherwise)"""
+        if isinstance(v, self.lib.SymMapped):
+            sl = v.sl
+            if n is None:
+                self.unsupported("starred unpack of map()", node)
+            if self.truth(Eq(smt.Len(sl.seq), I(n)), "unpack"):
+                return [self.call(v.f, [self.lib.elem_value(self, sl, smt.Nth(sl.seq, I(i)))], {}) for i in range(n)]
+            self.raise_(ValueError, "unpack: wrong number of values")
         if isinstance(v, SymList):
             sl = v
             if n is None:
